@@ -187,6 +187,26 @@ carquet_status_t carquet_reader_row_group_matches(
     const parquet_schema_element_t* elem = &reader->schema->elements[schema_idx];
     carquet_physical_type_t type = elem->has_type ? elem->type : CARQUET_PHYSICAL_BYTE_ARRAY;
 
+    /* Statistics come from the file: min/max of a fixed-width column that do not
+     * have the width of the type bound nothing (and must not be read as if they
+     * had): the row group cannot be filtered */
+    {
+        size_t width = 0;
+        switch (type) {
+            case CARQUET_PHYSICAL_BOOLEAN: width = 1; break;
+            case CARQUET_PHYSICAL_INT32:
+            case CARQUET_PHYSICAL_FLOAT: width = 4; break;
+            case CARQUET_PHYSICAL_INT64:
+            case CARQUET_PHYSICAL_DOUBLE: width = 8; break;
+            case CARQUET_PHYSICAL_INT96: width = 12; break;
+            default: break;
+        }
+        if (width != 0 && ((size_t)stats.min_value_size != width ||
+                           (size_t)stats.max_value_size != width)) {
+            return CARQUET_OK;
+        }
+    }
+
     /* NaN is unordered: a NaN probe cannot be decided from min/max, and a NaN
      * min or max carries no information (Parquet: such statistics are ignored) */
     if (type == CARQUET_PHYSICAL_FLOAT) {
